@@ -25,8 +25,14 @@ structure Around where
 def CRel (A B : Around) (n : Nat) (p p' : PState) : Prop :=
   ∃ Y X, n ≤ Y.length ∧ p.before = Y ++ A.b0 ∧ p'.before = Y ++ B.b0 ∧ p.after = X ++ A.e :: A.rest ∧ p'.after = X ++ B.e :: B.rest
 
+/-- the tokens that may follow the phrase in its new surroundings: end of input, a pipe, or a closing
+    token or separator (all of power ≤ 1, none of them a token the parser looks ahead for) -/
+def followerOK : TokType → Bool
+  | .eof | .pipe | .comma | .rbrace | .rparen | .rbracket => true
+  | _ => false
+
 section
-variable {A B : Around} (hA : A.e.ty = .eof) (hB : B.e.ty = .eof ∨ B.e.ty = .pipe)
+variable {A B : Around} (hA : A.e.ty = .eof) (hB : followerOK B.e.ty = true)
 
 theorem CRel.mono {n m : Nat} {p p' : PState} (h : CRel A B n p p') (hm : m ≤ n) : CRel A B m p p' := by
   obtain ⟨Y, X, hn, h1, h2, h3, h4⟩ := h
@@ -66,16 +72,14 @@ include hA hB in
 /-- a condition on the type of the next token that end of input meets and that both possible
     followers meet carries over -/
 theorem CRel.peekP {n : Nat} {p p' : PState} (h : CRel A B n p p') {t : Token} {r : List Token} (ha : p.after = t :: r)
-    (P : TokType → Prop) (hP : P t.ty) (hpipe : P .eof → P .pipe) :
+    (P : TokType → Prop) (hP : P t.ty) (hfol : ∀ ty, followerOK ty = true → P .eof → P ty) :
     ∃ t' r', p'.after = t' :: r' ∧ P t'.ty := by
   obtain ⟨t', r', ha', h'⟩ := h.peek ha
   refine ⟨t', r', ha', ?_⟩
   rcases h' with rfl | ⟨_, rfl, rfl⟩
   · exact hP
   · rw [hA] at hP
-    rcases hB with e | e <;> rw [e]
-    · exact hP
-    · exact hpipe hP
+    exact hfol _ hB hP
 
 include hA in
 /-- … and a token of a given type other than end of input is the same token -/
@@ -211,7 +215,8 @@ theorem nud_not_eof {tok : Token} {p : PState} {o : Out N} (h : R T (.nud tok p)
   cases h <;> simp_all
 
 include hB in
-theorem powB_le : specPow B.e.ty ≤ 1 := by rcases hB with e | e <;> rw [e] <;> decide
+theorem powB_le : specPow B.e.ty ≤ 1 := by
+  revert hB; cases B.e.ty <;> simp [followerOK, specPow]
 
 theorem pow_pos_ne_eof {t : Token} {k : Nat} (h : k < specPow t.ty) : t.ty ≠ .eof := by
   intro e; rw [e] at h; simp [specPow] at h
@@ -221,10 +226,25 @@ theorem notEnd_of_ty {p1 : PState} {t : Token} {rest : List Token} (ha : p1.afte
     p1.after ≠ A.e :: A.rest := by
   intro e; rw [ha] at e; simp only [List.cons.injEq] at e; rw [e.1] at ht; exact ht hA
 
+theorem single_eq_append {e t : Token} {seg rest : List Token} (h : [e] = seg ++ t :: rest) : seg = [] ∧ t = e ∧ rest = [] := by
+  cases seg with
+  | nil =>
+    simp only [List.nil_append, List.cons.injEq] at h
+    exact ⟨rfl, h.1.symm, h.2.symm⟩
+  | cons x xs =>
+    have := congrArg List.length h
+    simp at this
+
+theorem msl_node {c : Call N} {o : Out N} (h : R T c o) : ∀ p acc, c = .msl p acc → ∃ n p1, o = .node n p1 := by
+  induction h with
+  | mslLast _ _ _ _ => intro _ _ _; exact ⟨_, _, rfl⟩
+  | mslMore _ _ _ _ _ ih2 => intro _ _ _; exact ih2 _ _ rfl
+  | _ => intro p acc hc; cases hc
+
 include hA hB in
 /-- **Context independence**: a derivation moves from surroundings `A` (end of input after the phrase)
     to surroundings `B` (end of input or a pipe after it; anything before it), with the same AST. -/
-theorem R_moves {c : Call N} {o : Out N} (h : R T c o) : Moves A B c o := by
+theorem R_moves (hAr : A.rest = []) {c : Call N} {o : Out N} (h : R T c o) : Moves A B c o := by
   have hpw := powB_le hB
   induction h with
   | @expr rbp p tok rest left p1 o hafter hnud _ ih1 ih2 =>
@@ -254,7 +274,7 @@ theorem R_moves {c : Call N} {o : Out N} (h : R T c o) : Moves A B c o := by
   | @nudCurrent tok p hty => intro n p' _ hrel _; exact ⟨p', hrel, R.nudCurrent hty⟩
   | @nudQuoted tok p t rest hty hafter hne =>
     intro n p' _ hrel _
-    obtain ⟨t', r', ha', ht'⟩ := hrel.peekP hA hB hafter (fun ty => ty ≠ .lparen) hne (fun _ => by decide)
+    obtain ⟨t', r', ha', ht'⟩ := hrel.peekP hA hB hafter (fun ty => ty ≠ .lparen) hne (fun ty h _ => by cases ty <;> simp [followerOK] at h <;> decide)
     exact ⟨p', hrel, R.nudQuoted hty ha' ht'⟩
   | @nudNot tok p e p1 hty _ ih =>
     intro n p' hn hrel _
@@ -277,7 +297,7 @@ theorem R_moves {c : Call N} {o : Out N} (h : R T c o) : Moves A B c o := by
   | @nudList tok p t rest o hty hafter h1 h2 h3 _ ih =>
     intro n p' _ hrel _
     obtain ⟨t', r', ha', ht'⟩ := hrel.peekP hA hB hafter (fun ty => ty ≠ .number ∧ ty ≠ .colon ∧ ty ≠ .star) ⟨h1, h2, h3⟩
-      (fun _ => by decide)
+      (fun ty h _ => by cases ty <;> simp [followerOK] at h <;> decide)
     obtain ⟨p1', hp1, hR⟩ := ih n p' (Nat.zero_le _) hrel trivial
     exact ⟨p1', hp1, R.nudList hty ha' ht'.1 ht'.2.1 ht'.2.2 hR⟩
   | @nudHash tok p o hty _ ih =>
@@ -286,7 +306,7 @@ theorem R_moves {c : Call N} {o : Out N} (h : R T c o) : Moves A B c o := by
     exact ⟨p1', hp1, R.nudHash hty hR⟩
   | @ledDot nd p t rest r p1 hafter hns _ ih =>
     intro n p' _ hrel _
-    obtain ⟨t', r', ha', ht'⟩ := hrel.peekP hA hB hafter (fun ty => ty ≠ .star) hns (fun _ => by decide)
+    obtain ⟨t', r', ha', ht'⟩ := hrel.peekP hA hB hafter (fun ty => ty ≠ .star) hns (fun ty h _ => by cases ty <;> simp [followerOK] at h <;> decide)
     obtain ⟨p1', hp1, hR⟩ := ih n p' (Nat.zero_le _) hrel (Or.inl (by show _ ≤ 40; omega))
     exact ⟨p1', hp1, R.ledDot ha' ht' hR⟩
   | @ledPipe nd p r p1 _ ih =>
@@ -310,10 +330,21 @@ theorem R_moves {c : Call N} {o : Out N} (h : R T c o) : Moves A B c o := by
     obtain ⟨more', hb'⟩ := hrel.before2 (by simpa [need] using hn) hbef
     obtain ⟨r', ha', hadv⟩ := hrel.cons hA hafter (by rw [hrp]; decide)
     exact ⟨_, hadv.mono (Nat.le_succ n), R.ledCall0 hb' hprev ha' hrp⟩
-  | @ledCall name p lp prev more t0 rest0 as p1 t rest hbef hprev hafter0 hne _ hafter hrp ih =>
+  | @ledCall name p lp prev more t0 rest0 as p1 t rest hbef hprev hafter0 hne hargs hafter hrp ih =>
     intro n p' hn hrel _
     obtain ⟨more', hb'⟩ := hrel.before2 (by simpa [need] using hn) hbef
-    obtain ⟨t0', r0', ha0', ht0'⟩ := hrel.peekP hA hB hafter0 (fun ty => ty ≠ .rparen) hne (fun _ => by decide)
+    obtain ⟨t0', r0', ha0', hpk⟩ := hrel.peek hafter0
+    have ht0' : t0'.ty ≠ .rparen := by
+      rcases hpk with rfl | ⟨hend, _, _⟩
+      · exact hne
+      · exfalso   -- the argument list would start where the phrase ends
+        have hs := R_grammatical T hargs
+        simp only [Sound] at hs
+        obtain ⟨seg, hseg, _⟩ := hs
+        have hend' : p.after = A.e :: A.rest := hend
+        have := hseg.after; rw [hend', hAr, hafter] at this
+        obtain ⟨_, rfl, _⟩ := single_eq_append this
+        rw [hA] at hrp; cases hrp
     obtain ⟨p1', hp1, hR⟩ := ih n p' (Nat.zero_le _) hrel trivial
     obtain ⟨r', ha', hadv⟩ := hp1.cons hA hafter (by rw [hrp]; decide)
     exact ⟨_, hadv.mono (Nat.le_succ n), R.ledCall hb' hprev ha0' ht0' hR ha' hrp⟩
@@ -378,7 +409,7 @@ theorem R_moves {c : Call N} {o : Out N} (h : R T c o) : Moves A B c o := by
     exact ⟨p3', hp3.mono (by omega), R.mshMore (by rw [ha1, ha2]) hk hc hR ha' hty hR3⟩
   | @argPlainLast p t0 rest0 e p1 t rest hafter0 hne _ hafter hty ih =>
     intro n p' _ hrel _
-    obtain ⟨t0', r0', ha0', ht0'⟩ := hrel.peekP hA hB hafter0 (fun ty => ty ≠ .expref) hne (fun _ => by decide)
+    obtain ⟨t0', r0', ha0', ht0'⟩ := hrel.peekP hA hB hafter0 (fun ty => ty ≠ .expref) hne (fun ty h _ => by cases ty <;> simp [followerOK] at h <;> decide)
     have hte : t.ty ≠ .eof := by rw [hty]; decide
     obtain ⟨p1', hp1, hR⟩ := ih n p' (Nat.zero_le _) hrel (Or.inr (notEnd_of_ty hA hafter hte))
     obtain ⟨r', ha'⟩ := hp1.peekEq hA hafter hte
@@ -390,33 +421,72 @@ theorem R_moves {c : Call N} {o : Out N} (h : R T c o) : Moves A B c o := by
     obtain ⟨p1', hp1, hR⟩ := ih (n + 1) p'.advance (Nat.zero_le _) hadv0 (Or.inr (notEnd_of_ty hA hafter hte))
     obtain ⟨r', ha'⟩ := hp1.peekEq hA hafter hte
     exact ⟨p1', hp1.mono (Nat.le_succ n), R.argRefLast ha0' hty0 hR ha' hty⟩
-  | @argPlainMore p t0 rest0 e p1 t rest t2 rest2 as p3 hafter0 hne _ hafter hty hafter2 hne2 _ ih1 ih2 =>
+  | @argPlainMore p t0 rest0 e p1 t rest t2 rest2 as p3 hafter0 hne _ hafter hty hafter2 hne2 hargs2 ih1 ih2 =>
     intro n p' _ hrel _
-    obtain ⟨t0', r0', ha0', ht0'⟩ := hrel.peekP hA hB hafter0 (fun ty => ty ≠ .expref) hne (fun _ => by decide)
+    obtain ⟨t0', r0', ha0', ht0'⟩ := hrel.peekP hA hB hafter0 (fun ty => ty ≠ .expref) hne (fun ty h _ => by cases ty <;> simp [followerOK] at h <;> decide)
     have hte : t.ty ≠ .eof := by rw [hty]; decide
     obtain ⟨p1', hp1, hR⟩ := ih1 n p' (Nat.zero_le _) hrel (Or.inr (notEnd_of_ty hA hafter hte))
     obtain ⟨r', ha', hadv⟩ := hp1.cons hA hafter hte
-    obtain ⟨t2', r2', ha2', ht2'⟩ := hadv.peekP hA hB hafter2 (fun ty => ty ≠ .rparen) hne2 (fun _ => by decide)
+    obtain ⟨t2', r2', ha2', hpk2⟩ := hadv.peek hafter2
+    have ht2' : t2'.ty ≠ .rparen := by
+      rcases hpk2 with rfl | ⟨hend, _, _⟩
+      · exact hne2
+      · exfalso   -- a further argument would start where the phrase ends
+        have hs := R_grammatical T hargs2
+        simp only [Sound] at hs
+        obtain ⟨seg, hseg, hg⟩ := hs
+        obtain ⟨x, xs, rfl, hx⟩ := G_head hg
+        have hend' : p1.advance.after = A.e :: A.rest := hend
+        have := hseg.after; rw [hend', hAr] at this
+        simp only [List.cons_append, List.cons.injEq] at this
+        rw [← this.1, hA] at hx
+        simp [headOK, startTy] at hx
     obtain ⟨p3', hp3, hR3⟩ := ih2 _ p1'.advance (Nat.zero_le _) hadv trivial
     exact ⟨p3', hp3.mono (Nat.le_succ n), R.argPlainMore ha0' ht0' hR ha' hty ha2' ht2' hR3⟩
-  | @argRefMore p t0 rest0 e p1 t rest t2 rest2 as p3 hafter0 hty0 _ hafter hty hafter2 hne2 _ ih1 ih2 =>
+  | @argRefMore p t0 rest0 e p1 t rest t2 rest2 as p3 hafter0 hty0 _ hafter hty hafter2 hne2 hargs2 ih1 ih2 =>
     intro n p' _ hrel _
     obtain ⟨r0', ha0', hadv0⟩ := hrel.cons hA hafter0 (by rw [hty0]; decide)
     have hte : t.ty ≠ .eof := by rw [hty]; decide
     obtain ⟨p1', hp1, hR⟩ := ih1 (n + 1) p'.advance (Nat.zero_le _) hadv0 (Or.inr (notEnd_of_ty hA hafter hte))
     obtain ⟨r', ha', hadv⟩ := hp1.cons hA hafter hte
-    obtain ⟨t2', r2', ha2', ht2'⟩ := hadv.peekP hA hB hafter2 (fun ty => ty ≠ .rparen) hne2 (fun _ => by decide)
+    obtain ⟨t2', r2', ha2', hpk2⟩ := hadv.peek hafter2
+    have ht2' : t2'.ty ≠ .rparen := by
+      rcases hpk2 with rfl | ⟨hend, _, _⟩
+      · exact hne2
+      · exfalso   -- a further argument would start where the phrase ends
+        have hs := R_grammatical T hargs2
+        simp only [Sound] at hs
+        obtain ⟨seg, hseg, hg⟩ := hs
+        obtain ⟨x, xs, rfl, hx⟩ := G_head hg
+        have hend' : p1.advance.after = A.e :: A.rest := hend
+        have := hseg.after; rw [hend', hAr] at this
+        simp only [List.cons_append, List.cons.injEq] at this
+        rw [← this.1, hA] at hx
+        simp [headOK, startTy] at hx
     obtain ⟨p3', hp3, hR3⟩ := ih2 _ p1'.advance (Nat.zero_le _) hadv trivial
     exact ⟨p3', hp3.mono (by omega), R.argRefMore ha0' hty0 hR ha' hty ha2' ht2' hR3⟩
   | @nudStarR tok p t rest hty hafter hrb =>
     intro n p' _ hrel _
     obtain ⟨r', ha'⟩ := hrel.peekEq hA hafter (by rw [hrb]; decide)
     exact ⟨p', hrel, R.nudStarR hty ha' hrb⟩
-  | @nudStar tok p t rest r p1 hty hafter hnrb _ ih =>
+  | @nudStar tok p t rest r p1 hty hafter hnrb hprhs ih =>
     intro n p' _ hrel _
-    obtain ⟨t', r', ha', ht'⟩ := hrel.peekP hA hB hafter (fun ty => ty ≠ .rbracket) hnrb (fun _ => by decide)
-    obtain ⟨p1', hp1, hR⟩ := ih n p' (Nat.zero_le _) hrel (Or.inl (by show _ ≤ 20; omega))
-    exact ⟨p1', hp1, R.nudStar hty ha' ht' hR⟩
+    obtain ⟨t', r', ha', hpk⟩ := hrel.peek hafter
+    by_cases hrb' : t'.ty = .rbracket
+    · -- the new follower is `]`: the parser takes its `*]` shortcut, with the same result
+      rcases hpk with rfl | ⟨hend, rfl, _⟩
+      · exact absurd hrb' hnrb
+      · have : r = .identity ∧ p1 = p := by
+          cases hprhs with
+          | prhsId _ _ => exact ⟨rfl, rfl⟩
+          | prhsBracket ha2 _ hty2 _ =>
+            rw [hafter] at ha2; injection ha2 with e1 _; rw [← e1, hA] at hty2; rcases hty2 with h | h <;> cases h
+          | prhsDot ha2 _ hty2 _ =>
+            rw [hafter] at ha2; injection ha2 with e1 _; rw [← e1, hA] at hty2; cases hty2
+        obtain ⟨rfl, rfl⟩ := this
+        exact ⟨p', hrel, R.nudStarR hty ha' hrb'⟩
+    · obtain ⟨p1', hp1, hR⟩ := ih n p' (Nat.zero_le _) hrel (Or.inl (by show _ ≤ 20; omega))
+      exact ⟨p1', hp1, R.nudStar hty ha' hrb' hR⟩
   | @nudFilter tok p o hty _ ih =>
     intro n p' _ hrel _
     obtain ⟨p1', hp1, hR⟩ := ih n p' (Nat.zero_le _) hrel trivial
@@ -440,11 +510,31 @@ theorem R_moves {c : Call N} {o : Out N} (h : R T c o) : Moves A B c o := by
     rw [h3] at ha2
     obtain ⟨p1', hp1, hR⟩ := ih _ p'.advance.advance (Nat.zero_le _) hadv2 (Or.inl (by show _ ≤ 20; omega))
     exact ⟨p1', hp1.mono (by omega), R.nudBracketStar hty (by rw [ha1, ha2]) hs hrb hR⟩
-  | @nudListStar tok p t u rest o hty hafter hs hnrb _ ih =>
+  | @nudListStar tok p t u rest o hty hafter hs hnrb hmsl ih =>
     intro n p' _ hrel _
     obtain ⟨r1, ha1, hadv1⟩ := hrel.cons hA hafter (by rw [hs]; decide)
     have h2 : p.advance.after = u :: rest := by simp [PState.advance, hafter]
-    obtain ⟨u', r2, ha2, hu'⟩ := hadv1.peekP hA hB h2 (fun ty => ty ≠ .rbracket) hnrb (fun _ => by decide)
+    obtain ⟨u', r2, ha2, hpk⟩ := hadv1.peek h2
+    have hu' : u'.ty ≠ .rbracket := by
+      rcases hpk with rfl | ⟨hend, hu, _⟩
+      · exact hnrb
+      · exfalso   -- the list would have to close inside `*` followed by the end of the phrase
+        obtain ⟨nd, pz, rfl⟩ := msl_node hmsl _ _ rfl
+        have hs' := R_grammatical T hmsl
+        simp only [Sound] at hs'
+        obtain ⟨e, rb, hseg, _, hrb, _⟩ := hs'
+        have hall := hseg.after
+        have hend' : p.advance.after = A.e :: A.rest := hend
+        rw [h2] at hend'
+        simp only [List.cons.injEq] at hend'
+        rw [hafter, hend'.2, hAr, hu] at hall
+        -- `e ++ [rb]` is a prefix of `[t, A.e]`, so `rb` is one of them
+        have hmem : rb ∈ [t, A.e] := by
+          rw [hall]; simp
+        simp only [List.mem_cons, List.not_mem_nil, or_false] at hmem
+        rcases hmem with rfl | rfl
+        · rw [hs] at hrb; cases hrb
+        · rw [hA] at hrb; cases hrb
     have h3 : p'.advance.after = r1 := by simp [PState.advance, ha1]
     rw [h3] at ha2
     obtain ⟨p1', hp1, hR⟩ := ih n p' (Nat.zero_le _) hrel trivial
@@ -498,14 +588,14 @@ theorem R_moves {c : Call N} {o : Out N} (h : R T c o) : Moves A B c o := by
     obtain ⟨p1', hp1, hR⟩ := ih1 n p' (Nat.zero_le _) hrel (Or.inr (notEnd_of_ty hA hafter hte))
     obtain ⟨r1, ha1, hadv1⟩ := hp1.cons hA hafter hte
     have h2 : p1.advance.after = t :: rest := by simp [PState.advance, hafter]
-    obtain ⟨t', r2, ha2, ht'⟩ := hadv1.peekP hA hB h2 (fun ty => ty ≠ .flatten) hnfl (fun _ => by decide)
+    obtain ⟨t', r2, ha2, ht'⟩ := hadv1.peekP hA hB h2 (fun ty => ty ≠ .flatten) hnfl (fun ty h _ => by cases ty <;> simp [followerOK] at h <;> decide)
     have h3 : p1'.advance.after = r1 := by simp [PState.advance, ha1]
     rw [h3] at ha2
     obtain ⟨p2', hp2, hR2⟩ := ih2 _ p1'.advance (Nat.zero_le _) hadv1 (Or.inl (by show _ ≤ 21; omega))
     exact ⟨p2', hp2.mono (Nat.le_succ n), R.filterRhs hR (by rw [ha1, ha2]) hrb ht' hR2⟩
   | @prhsId bp p t rest hafter hlt =>
     intro n p' _ hrel _
-    obtain ⟨t', r', ha', ht'⟩ := hrel.peekP hA hB hafter (fun ty => T.power ty < T.projStop) hlt (fun _ => by decide)
+    obtain ⟨t', r', ha', ht'⟩ := hrel.peekP hA hB hafter (fun ty => T.power ty < T.projStop) hlt (fun ty h _ => by cases ty <;> simp [followerOK] at h <;> decide)
     exact ⟨p', hrel, R.prhsId ha' ht'⟩
   | @prhsBracket bp p t rest o hafter hnlt hty _ ih =>
     intro n p' _ hrel hside
